@@ -202,6 +202,20 @@ Proof.
 Qed.
 Print Assumptions C05_read_is_source_ok.
 
+(* Reader (read() until io.EOF, every tree on the one growing heap): the items are the model's
+   decode — for each tree of the model an address that holds it in the final heap (the trees
+   read earlier are still intact: nothing below the heap's length at the time is written later),
+   for the model's error item a nil pointer with a non-EOF error. *)
+Theorem C05_reader_is_source : forall o tm fuel h s, (length s + 2 < fuel)%nat ->
+  match decode o s tm with
+  | Ok items => exists st h' out,
+      ImpGen.imp_newickrd_Reader fuel o h (GoSem.Stream s (ImpProofsJ.term_code tm) None) = GoSem.Ret (st, (h', out)) /\
+      Forall2 (ImpProofsR.item_holds h') items out /\ ImpProofsR.keeps (GoSem.go_len h) h h'
+  | _ => True
+  end.
+Proof. exact ImpProofsR.imp_newick_Reader_ok. Qed.
+Print Assumptions C05_reader_is_source.
+
 (* Write, then read, both as translated: MarshalText of any tree (floats covered by the oracle),
    surrounded by any white space before and anything after, read by the translated reader, leaves
    a heap that holds the same tree (up to the sign of a zero distance, [norm]) and the rest. *)
